@@ -1326,8 +1326,52 @@ def _r20f(chk, repo) -> None:
                 f"({sorted(nm for _, nm in stores)}): those codes are missing from the result, `-- noqa: PRS` then matches literally and hides parse errors that noqa was disabled for",
                 detail="restricted map iterates the map that holds the special codes",
             )
+    # the exception list is expanded against that same map (PRS / LXR / TMP must be findable by it)
+    n_g = 0
+    for c in [c for c in ast.walk(f) if isinstance(c, ast.Call) and last_attr(c) in ("filter", "fnmatch", "fnmatchcase", "get") and c.args]:
+        if last_attr(c) == "get":
+            root = c.func.value if isinstance(c.func, ast.Attribute) else None
+        else:
+            root = c.args[0]
+        while isinstance(root, (ast.Call, ast.Attribute)):
+            root = root.func if isinstance(root, ast.Call) else root.value
+        if not isinstance(root, ast.Name) or root.id in ("fnmatch", "re", "regex", "disable_noqa_except"):
+            continue
+        st = cfg.stmt_of(c)
+        if st is None:
+            continue
+        ds = cfg.reaching().defs_at(st, root.id)
+        if not ds:
+            continue
+        n_g += 1
+        chk.require(
+            canon(root.id, st) in filled, "R20f", c,
+            f"the exceptions are expanded against `{root.id}` ({short(c, 50)}), which is not the map the special codes PRS/LXR/TMP were stored into: `disable_noqa_except = PRS` then "
+            "selects nothing, the restricted map has an empty entry for PRS and `-- noqa: PRS` no longer hides the parse error it is allowed to hide",
+            detail="exception list expanded against the map that holds the special codes",
+        )
+    chk.count("R20f.exception_expansions", n_g)
     chk.count("R20f.restricted_returns", n)
     chk.floor("R20f.restricted_returns", 1)
+
+
+def _r20h(chk, repo) -> None:
+    f = repo.fn(NOQA, "IgnoreMask._extract_ignore_from_comment")
+    n = 0
+    for c in [c for c in ast.walk(f) if isinstance(c, ast.Call) and isinstance(c.func, ast.Attribute) and c.func.attr in ("strip", "lstrip", "rstrip", "removeprefix", "removesuffix")]:
+        n += 1
+        if c.func.attr in ("removeprefix", "removesuffix") or not c.args:
+            continue
+        a = c.args[0]
+        chars = a.value if isinstance(a, ast.Constant) and isinstance(a.value, str) else None
+        chk.require(
+            chars is not None and not (set(chars) & set("*?[]")), "R20h", c,
+            f"the directive text is stripped by the character set {chars!r} ({short(c, 40)}): a glob star at the end of the last rule reference (`/* noqa: AL0* */`) is removed with the comment "
+            "marker, the reference matches no rule and the directive hides nothing",
+            detail="_extract_ignore_from_comment: markers removed by length, not by character set",
+        )
+    chk.count("R20h.strip_calls", n)
+    chk.floor("R20h.strip_calls", 1)
 
 
 def _r20g(chk, repo) -> None:
@@ -1374,6 +1418,8 @@ def run(chk) -> None:
     _r20d_e(chk, repo)
     chk.rule("R20f", "allowed_rule_ref_map restricts the very map that was given the special codes PRS/LXR/TMP: the returned map is built by iterating the object those keys were stored into (or an alias of it)")
     _r20f(chk, repo)
+    chk.rule("R20h", "the comment markers are cut off the directive text by length, not by character set: _extract_ignore_from_comment applies no strip / lstrip / rstrip with a character-set argument to the comment's text (a set containing '*' also removes the glob star that ends a rule reference)")
+    _r20h(chk, repo)
     chk.rule("R20g", "when directives are read from the raw source (no tree), lines are counted as everywhere else: IgnoreMask.from_source enumerates `<source>.split('\\n')`, never splitlines() (which also breaks at \\f, \\v, \\x1c-\\x1e, \\x85, U+2028/9 and would number every later directive one line too high)")
     _r20g(chk, repo)
     chk.note("Partial claim: wiring, gating, sibling agreement and marking of the noqa machinery. The algebra over line numbers, ranges and rule sets (which directive covers which line) is value-level and not decided.")
@@ -1384,6 +1430,18 @@ from ..selftest import Variant  # noqa: E402
 CMDS = "src/sqlfluff/cli/commands.py"
 
 VARIANTS: List[Variant] = [
+    Variant(
+        "block-comment-markers-stripped-by-character-set", NOQA,
+        '        if comment_content.endswith("*/"):\n            comment_content = comment_content[:-2].rstrip()\n',
+        '        if comment_content.endswith("*/"):\n            comment_content = comment_content.rstrip("*/ ")\n',
+        "R20h", "_extract_ignore_from_comment", "seeded C20-7 (same effect)",
+    ),
+    Variant(
+        "quiet-special-codes-stored-into-a-copy", LINTER,
+        "        output_map = reference_map\n",
+        "        output_map = dict(reference_map)\n",
+        "QUIET", None, "R20f: the special codes go into a copy and everything after uses that copy (seeded C22-7 additionally globs the original map and is reported)",
+    ),
     Variant(
         "source-fallback-counts-lines-with-splitlines", NOQA,
         '        for idx, line in enumerate(source.split("\\n")):\n',
